@@ -115,7 +115,7 @@ def _summary():
     for sid,r in res.items():
         rd=sid.split('-')[1]
         cb=r.get('caught_by','')
-        k='pending' if cb.startswith('pending') or not cb else ('missed at first, caught after strengthening' if 'Missed at first' in cb else 'caught as built')
+        k='pending' if cb.startswith('pending') or not cb else 'missed, not yet covered (open)' if cb.startswith('MISSED') else ('missed at first, caught after strengthening' if 'Missed at first' in cb else 'caught as built')
         rounds.setdefault(rd,{}).setdefault(k,[]).append(sid.split('-')[0])
     out=[]
     for rd in sorted(rounds):
